@@ -2,8 +2,9 @@
 C19 — Nested selectors combine as Sass specifies.  Property theorems only; helper lemmas are
 in RsassModel/Sel/NestLemmas.lean, the model in RsassModel/Sel/Nest.lean.
 
-`nestSpec` = all deviation flags off (what the property demands), `nestAsis` = the code today
-(`ampViaUnify`: `resolve_ref` pushes the substituted compound through `Selector::unify`).
+`nestSpec` = all deviation flags off (what the property demands) = `nestAsis`, the code today
+(since /repo d714329 and 1acf5fd); `nestOld` = the code before: `ampViaUnify` (`resolve_ref`
+pushed the substituted compound through `Selector::unify`), `suffixUnwrapPanics`.
 -/
 import RsassModel.Sel.NestLemmas
 
@@ -74,13 +75,13 @@ theorem amp_in_pseudo (cm : Bool) (ctx : SelSet) (n : List Char) (e : Bool)
   simp [Pseudo.resolveRef, PArg.resolveRef, Selector.resolveRefRows, h1, roundRobin_singleton,
     Pseudo.print, hn, PArg.print, SelSet.print, Selector.printList_map_congr cm f ctx hpr]
 
-/-- As-is flags (`ampViaUnify`), partial: when the substituted compound has a non-empty
+/-- Old code (`ampViaUnify`, repaired by d714329), partial: when the substituted compound has a non-empty
 unification with the empty compound that changes nothing, the code's result is the specified
 one.  (The full statement — equality for all inputs — is refuted below.) -/
 theorem amp_replace_partial (s : Selector) (c ap : Compound)
     (hap : s.compound.append c = some ap) (hu : ap.unifyEmpty = some ap) (hne : ap.isEmpty = false) :
-    resolveOne nestAsis s c = resolveOne nestSpec s c := by
-  have hq : nestAsis.ampViaUnify = true := rfl
+    resolveOne nestOld s c = resolveOne nestSpec s c := by
+  have hq : nestOld.ampViaUnify = true := rfl
   have hq' : nestSpec.ampViaUnify = false := rfl
   cases s with
   | leaf c0 => simp [resolveOne, hap, hu, hq, hq', Selector.setCompound]
@@ -90,22 +91,37 @@ theorem amp_replace_partial (s : Selector) (c ap : Compound)
 example : ∃ ap, (Selector.leaf (Compound.ofClass "a")).compound.append (Compound.ofClass "b") = some ap ∧
     ap.unifyEmpty = some ap ∧ ap.isEmpty = false := ⟨_, rfl, rfl, rfl⟩
 
-/-- Refutation of the full statement for the code as it is: `.a { &.a {…} }` is emitted as
-`.a`, the property demands `.a.a` (witness of known finding C19-amp-unify). -/
-theorem amp_replace_asis_refuted :
-    (resolveOne nestAsis (.leaf (Compound.ofClass "a")) (Compound.ofClass "a")).map (Selector.print false) = [".a".toList]
+/-- Refutation of the full statement for the old code: `.a { &.a {…} }` is emitted as
+`.a`, the property demands `.a.a` (witness of finding C19-amp-unify, fixed by d714329). -/
+theorem amp_replace_old_refuted :
+    (resolveOne nestOld (.leaf (Compound.ofClass "a")) (Compound.ofClass "a")).map (Selector.print false) = [".a".toList]
     ∧ (resolveOne nestSpec (.leaf (Compound.ofClass "a")) (Compound.ofClass "a")).map (Selector.print false) = [".a.a".toList] := by
   decide
 
 /-- second witness: the pseudo-element is moved behind the substituted simple selectors:
 `a:before { &:hover }` gives `a:hover:before` instead of `a:before:hover` -/
-theorem amp_pseudo_element_asis_refuted :
-    (resolveOne nestAsis (.leaf (.mk false (some ['a']) [] [] none [] [.mk "before".toList .none false]))
+theorem amp_pseudo_element_old_refuted :
+    (resolveOne nestOld (.leaf (.mk false (some ['a']) [] [] none [] [.mk "before".toList .none false]))
         (.mk false none [] [] none [] [.mk "hover".toList .none false])).map (Selector.print false)
       = ["a:hover:before".toList]
     ∧ (resolveOne nestSpec (.leaf (.mk false (some ['a']) [] [] none [] [.mk "before".toList .none false]))
         (.mk false none [] [] none [] [.mk "hover".toList .none false])).map (Selector.print false)
       = ["a:before:hover".toList] := by
+  decide
+
+/-- The code today is the specification model. -/
+theorem asis_is_spec : nestAsis = nestSpec := rfl
+
+/-- A `&` that cannot be resolved is never a panic under the specification flags (it is the
+error `Parent ".." is incompatible with this selector.`), for every sheet. -/
+theorem suffix_failure_is_error (items : List Item) : (sheetOutcome nestSpec items).isPanic = false := by
+  unfold sheetOutcome
+  split <;> rfl
+
+/-- Old code (before 1acf5fd), refutation: `[b] { &-x { d } }` panics. -/
+theorem suffix_failure_old_panics :
+    (sheetOutcome nestOld [.rule [.leaf (.mk false none [] [] none [⟨['b'], [], [], .none, none⟩] [])]
+      [.rule [.leaf (.mk true (some ['-', 'x']) [] [] none [] [])] [.decl ['d']]]]).isPanic = true := by
   decide
 
 end Sel.C19
